@@ -214,6 +214,6 @@ def run(ctx):
                         stack.append(fl["ty"])
         ctx.floor("text-keyed Serialize structs", n_text, 14, cfg=cfg)
         ctx.floor("indexed Serialize structs", n_idx, 11, cfg=cfg)
-        ctx.floor("ordered member pairs", n_pairs, 300, cfg=cfg)
+        ctx.floor("ordered member pairs", n_pairs, 250, cfg=cfg)
         ctx.floor("container headers", n_hdr, 12, cfg=cfg)
         ctx.floor("types in the response closure", n_closure, 25, cfg=cfg)
